@@ -89,3 +89,20 @@ Example C17_rs_chk_detects_bad_column :
 Proof. exact rs_chk_detects_bad_index. Qed.
 Example C17_std_chk_detects_short_y : standard_aggregation_chk 2 [0; 1; 2] [1; 0] [] = None.
 Proof. exact std_chk_detects_short_y. Qed.
+
+(* breadth_first_search, unbounded: on every structurally valid CSR graph (symmetric or not, any size) with the seed
+   in range and order[] of n entries, the bounds-checked twin never reports an access outside Ap, Aj, order[0..n),
+   level[0..n), returns a result, and that result is the unchecked model's (whose functional correctness is
+   C18_breadth_first_search_correct); the write order[N] happens only while fewer than n vertices are labelled *)
+Require Import PV.Model.BfsChk PV.Proofs.BfsSafe.
+Theorem C17_breadth_first_search_stays_in_bounds : forall (N : nat) (Ap Aj : list Z),
+  length Ap = S N ->
+  (forall i, 0 <= i < Z.of_nat N -> 0 <= get Ap i <= get Ap (i + 1) /\ get Ap (i + 1) <= Z.of_nat (length Aj)) ->
+  (forall i, 0 <= i < Z.of_nat N -> forall j, In j (nbrs Ap Aj i) -> 0 <= j < Z.of_nat N) ->
+  forall seed, 0 <= seed < Z.of_nat N -> forall order0, length order0 = N ->
+  bfs_chk (Z.of_nat N) Ap Aj seed order0 = bfs (Z.of_nat N) Ap Aj seed order0 /\
+  exists r, bfs_chk (Z.of_nat N) Ap Aj seed order0 = Some r.
+Proof. exact (fun N Ap Aj H1 H2 H3 seed Hs order0 Ho => bfs_safe N Ap Aj H1 H2 H3 seed Hs order0 Ho). Qed.
+Print Assumptions C17_breadth_first_search_stays_in_bounds.
+Example C17_bfs_chk_detects_bad_column : bfs_chk 2 [0; 1; 2] [1; 2] 0 [0; 0] = None.
+Proof. vm_compute. reflexivity. Qed.
